@@ -45,6 +45,7 @@ fn strip_rules(model: &str) -> String {
 
 pub fn main(args: &[String]) {
     let a = util::parse_args(args);
+    let cli_budget = if a.tier == "thorough" { 1500 } else { 150 };
     let mut rep = Report::new("C05");
     let thorough = a.tier == "thorough";
     let mut rng = Rng::new(a.seed);
@@ -86,6 +87,23 @@ pub fn main(args: &[String]) {
                     rep.disagree(&lines[k], &format!("gate[{target}]"), &real, &model[k]);
                 }
                 rep.count(if real == "accept" { "real_accept" } else { "real_reject" });
+                // the same verdict from the real command line (its own choice of attribute support and lowering config)
+                if (real == "accept" || real.starts_with("reject ")) && rep.distribution.get("cli-gate").copied().unwrap_or(0) < cli_budget && k % 3 == 0 {
+                    rep.count("cli-gate");
+                    let mut flags = vec!["lib_name=somelib".to_string(), "kotlin.domain=dev.diplomattest".to_string()];
+                    if *unsafe_refs { flags.push("unsafe_references_in_callbacks=true".into()); }
+                    match tool::cli_gate(&util::workdir("C05cli"), &srcs[k], target, &flags) {
+                        Err(e) => rep.disagree(&lines[k], "cli-gate", &e, "runnable"),
+                        Ok(None) if real == "accept" => {}
+                        Ok(Some(c)) if real.starts_with("reject ") => {
+                            let got = c.into_iter().collect::<Vec<_>>().join(",");
+                            if format!("reject {got}") != real {
+                                rep.disagree(&lines[k], &format!("cli-gate-context[{target}]"), &format!("reject {got}"), &real);
+                            }
+                        }
+                        Ok(o) => rep.disagree(&lines[k], &format!("cli-gate[{target}]"), &format!("{o:?}"), &real),
+                    }
+                }
                 // the documented rules, through the generator: valid modules are accepted, mutants rejected
                 rep.oracle_runs += 1;
                 let accepted = real == "accept";
